@@ -252,6 +252,8 @@ class Report:
         d[key] = d.get(key, 0) + n
 
     def violation(self, key, desc, replay):
+        if any(k == key for k, _, _ in self.violations):
+            return
         self.violations.append((key, desc, replay))
 
     def finish(self):
